@@ -844,6 +844,43 @@ func signature(dir string) (s sig) {
 		return
 	}
 	defer repo.Close()
+	// the clocks as the repository opens them, before anything is read (reading an entity witnesses its times: looked at
+	// afterwards, a clock that came back too low would have been lifted again), against the times stored in every commit under a
+	// local ref, read from the trees directly
+	clock0 := map[string]int{}
+	if all, err := repo.AllClocks(); err == nil {
+		for name, c := range all {
+			clock0[name] = int(c.Time())
+		}
+	}
+	stored := map[string]int{}
+	if refs, err := repo.ListRefs("refs/bugs/"); err == nil {
+		for _, ref := range refs {
+			commits, err := repo.ListCommits(ref)
+			if err != nil {
+				continue
+			}
+			for _, h := range commits {
+				c, err := repo.ReadCommit(h)
+				if err != nil {
+					continue
+				}
+				entries, err := repo.ReadTree(c.TreeHash)
+				if err != nil {
+					continue
+				}
+				for _, e := range entries {
+					for prefix, clock := range map[string]string{"edit-clock-": "bugs-edit", "create-clock-": "bugs-create"} {
+						if strings.HasPrefix(e.Name, prefix) {
+							if n, err := strconv.Atoi(strings.TrimPrefix(e.Name, prefix)); err == nil && n > stored[clock] {
+								stored[clock] = n
+							}
+						}
+					}
+				}
+			}
+		}
+	}
 	maxEdit, maxCreate := 0, 0
 	ncommits := func(ref string) int {
 		cs, err := repo.ListCommits(ref)
@@ -913,6 +950,11 @@ func signature(dir string) (s sig) {
 		}
 		if _, err := repo.Increment(name); err != nil {
 			s.clockOK, s.clockWhy = false, name+" cannot be incremented: "+err.Error()
+		}
+	}
+	for name, floor := range stored {
+		if clock0[name] < floor {
+			s.clockOK, s.clockWhy = false, fmt.Sprintf("the repository opens with %s = %d, lower than a time stored under a local ref (%d)", name, clock0[name], floor)
 		}
 	}
 	check("bugs-edit", maxEdit)
